@@ -3,7 +3,7 @@
    derivative of the residual along any differentiable curve of evaluation points. *)
 From Coq Require Import Reals Lra Lia ZArith List String Bool.
 From Coquelicot Require Import Coquelicot.
-From Verif Require Import lib.Dual gen.AldiGen.
+From Verif Require Import lib.Dual gen.AldiGen model.AldiTree.
 Import ListNotations.
 Local Open Scope R_scope.
 
@@ -286,3 +286,290 @@ Proof.
   assert (0 < exp (- f x)) by apply exp_pos.
   ad_start; [ ad_conds | known f x f' H; fieldR; lra ].
 Qed.
+
+(* maximum(f, c) and maximum(f, g), away from the kink *)
+Ltac cmp_simpl a b :=
+  rewrite ?(Rltb_true a b) by lra; rewrite ?(Rltb_false a b) by lra;
+  rewrite ?(Rltb_true b a) by lra; rewrite ?(Rltb_false b a) by lra;
+  rewrite ?(Reqb_false a b) by lra; rewrite ?(Reqb_true a b) by lra.
+
+Lemma maximum_aa_value : forall v d w e : R, fst (atom_maximum_aa RD (v, d) (w, e)) = Rmax v w.
+Proof.
+  intros. cbn -[Rltb Reqb]. unfold Rmax. destruct (Rle_dec v w) as [H | H].
+  - destruct (Req_EM_T v w) as [-> | Hne]; [ cmp_simpl w w; reflexivity | cmp_simpl v w; reflexivity ].
+  - cmp_simpl v w. reflexivity.
+Qed.
+
+Lemma maximum_ac_value : forall v d c : R, fst (atom_maximum_ac RD (v, d) c) = Rmax v c.
+Proof.
+  intros. cbn -[Rltb Reqb]. unfold Rmax. destruct (Rle_dec v c) as [H | H].
+  - destruct (Req_EM_T v c) as [-> | Hne]; [ cmp_simpl c c; reflexivity | cmp_simpl v c; reflexivity ].
+  - cmp_simpl v c. reflexivity.
+Qed.
+
+Lemma maximum_aa_rule : forall (f g : R -> R) (x f' g' : R), is_derive f x f' -> is_derive g x g' -> f x <> g x ->
+  derives (fun u => Rmax (f u) (g u)) x (atom_maximum_aa RD (f x, f') (g x, g')).
+Proof.
+  intros f g x f' g' Hf Hg Hne. split; [ apply maximum_aa_value | ].
+  destruct (Rlt_dec (f x) (g x)) as [Hlt | Hnlt].
+  - apply (is_derive_ext_loc g).
+    + generalize (locally_lt f g x f' g' Hf Hg Hlt). apply filter_imp. intros u Hu.
+      symmetry. apply Rmax_right. lra.
+    + cbn -[Rltb Reqb]. cmp_simpl (f x) (g x). eapply is_derive_eq; [ exact Hg | ringR ].
+  - assert (Hgt : g x < f x) by lra.
+    apply (is_derive_ext_loc f).
+    + generalize (locally_lt g f x g' f' Hg Hf Hgt). apply filter_imp. intros u Hu.
+      symmetry. apply Rmax_left. lra.
+    + cbn -[Rltb Reqb]. cmp_simpl (f x) (g x). eapply is_derive_eq; [ exact Hf | ringR ].
+Qed.
+
+Lemma maximum_ac_rule : forall (f : R -> R) (x f' c : R), is_derive f x f' -> f x <> c ->
+  derives (fun u => Rmax (f u) c) x (atom_maximum_ac RD (f x, f') c).
+Proof.
+  intros f x f' c Hf Hne. split; [ apply maximum_ac_value | ].
+  assert (Hc : is_derive (fun _ : R => c) x 0) by apply is_derive_const_R.
+  destruct (Rlt_dec (f x) c) as [Hlt | Hnlt].
+  - apply (is_derive_ext_loc (fun _ => c)).
+    + generalize (locally_lt f (fun _ => c) x f' 0 Hf Hc Hlt). apply filter_imp. intros u Hu.
+      symmetry. apply Rmax_right. lra.
+    + cbn -[Rltb Reqb]. cmp_simpl (f x) c. eapply is_derive_eq; [ exact Hc | ringR ].
+  - assert (Hgt : c < f x) by lra.
+    apply (is_derive_ext_loc f).
+    + generalize (locally_lt (fun _ => c) f x 0 f' Hc Hf Hgt). apply filter_imp. intros u Hu.
+      symmetry. apply Rmax_left. lra.
+    + cbn -[Rltb Reqb]. cmp_simpl (f x) c. eapply is_derive_eq; [ exact Hf | ringR ].
+Qed.
+
+(* minimum: `adaptations.py` dispatches to a method called "minimum"; class Atom spells its method
+   "mininum", so an Atom argument reaches numpy.minimum, which raises TypeError: rejected.  The text of
+   that method (regenerated as atom_minimum_aa, atom_minimum_ac) is (-x).maximum(-c) = -min(x, c): were it reachable under
+   the offered name, it would have to be the derivative of min; this lemma is what forces that. *)
+Definition minimum_is_method : bool := is_method (fn2_name FMinimum).
+
+Lemma Rmin_opp_max : forall a b, Rmin a b = - Rmax (- a) (- b).
+Proof. intros. unfold Rmin, Rmax. destruct (Rle_dec a b), (Rle_dec (- a) (- b)); lra. Qed.
+
+Lemma minimum_rule_or_unreachable :
+  minimum_is_method = false \/
+  ((forall (f g : R -> R) (x f' g' : R), is_derive f x f' -> is_derive g x g' -> f x <> g x ->
+      derives (fun u => Rmin (f u) (g u)) x (atom_minimum_aa RD (f x, f') (g x, g'))) /\
+   (forall (f : R -> R) (x f' c : R), is_derive f x f' -> f x <> c ->
+      derives (fun u => Rmin (f u) c) x (atom_minimum_ac RD (f x, f') c))).
+Proof.
+  first
+  [ left; reflexivity
+  | right; split;
+    [ intros f g x f' g' Hf Hg Hne;
+      assert (Hf' : is_derive (fun u => - f u) x (- f')) by (apply (neg_rule f x f' Hf));
+      assert (Hg' : is_derive (fun u => - g u) x (- g')) by (apply (neg_rule g x g' Hg));
+      destruct (maximum_aa_rule _ _ x _ _ Hf' Hg' ltac:(lra)) as [V D];
+      split;
+      [ rewrite Rmin_opp_max; cbn -[Rltb Reqb atom_maximum_aa] in *; rewrite <- V; reflexivity
+      | apply (is_derive_ext (fun u => - Rmax (- f u) (- g u)));
+        [ intros u; symmetry; apply Rmin_opp_max
+        | apply (neg_rule _ x _ D) ] ]
+    | intros f x f' c Hf Hne;
+      assert (Hf' : is_derive (fun u => - f u) x (- f')) by (apply (neg_rule f x f' Hf));
+      destruct (maximum_ac_rule _ x _ (- c) Hf' ltac:(lra)) as [V D];
+      split;
+      [ rewrite Rmin_opp_max; cbn -[Rltb Reqb atom_maximum_ac] in *; rewrite <- V; reflexivity
+      | apply (is_derive_ext (fun u => - Rmax (- f u) (- c)));
+        [ intros u; symmetry; apply Rmin_opp_max
+        | apply (neg_rule _ x _ D) ] ] ] ].
+Qed.
+
+(* ------------------------------------------------------------------------------ *)
+(* the tree evaluator computes value and derivative of the residual                *)
+(* ------------------------------------------------------------------------------ *)
+
+Lemma derives_ext : forall (F G : R -> R) x d, (forall u, F u = G u) -> derives F x d -> derives G x d.
+Proof.
+  intros F G x d E [V D]. split; [ now rewrite <- E | now apply (is_derive_ext F G) ].
+Qed.
+
+Lemma derives_eta : forall (F : R -> R) x (d : dualR), derives F x d -> d = (F x, snd d).
+Proof. intros F x [v d'] [V _]. simpl in *. now subst. Qed.
+
+Lemma novars_not_atom : forall rho sd lg (t : tree RD), novars t = true ->
+  match eval RD rho sd lg t with VA _ => False | _ => True end.
+Proof.
+  intros rho sd lg t. induction t as [c | q s | a IHa | a IHa | o a IHa b IHb | f a IHa | f a IHa b IHb | f a IHa];
+    simpl; intros H; try discriminate; try exact I.
+  - specialize (IHa H). destruct (eval RD rho sd lg a); auto.
+  - specialize (IHa H). destruct (eval RD rho sd lg a); auto.
+  - apply andb_prop in H as [H1 H2]. specialize (IHa H1). specialize (IHb H2).
+    destruct (eval RD rho sd lg a), (eval RD rho sd lg b); simpl; auto; contradiction.
+  - specialize (IHa H). destruct (eval RD rho sd lg a); simpl; auto; contradiction.
+  - apply andb_prop in H as [H1 H2]. specialize (IHa H1). specialize (IHb H2).
+    destruct (eval RD rho sd lg a), (eval RD rho sd lg b); simpl; auto; contradiction.
+  - specialize (IHa H). destruct (eval RD rho sd lg a); simpl; auto; contradiction.
+Qed.
+
+Section EvalCorrect.
+Variable gam : R -> token -> R.     (* a curve of evaluation points *)
+Variable sd : token -> R.           (* Atom._diff of each token *)
+Variable lg : Z -> bool.
+Variable s0 : R.
+
+Definition leaf_ok (v : token) : Prop :=
+  is_derive (fun u => gam u v) s0 (atom_diff RD (lg (fst v)) (gam s0 v) (sd v)).
+
+Definition result_ok (t : tree RD) (v : val RD) : Prop :=
+  match v with
+  | VRej => True                                        (* TypeError: nothing is computed *)
+  | VC c => forall rho, den t rho = c                    (* a plain number *)
+  | VA d => derives (fun u => den t (gam u)) s0 d        (* value and derivative along the curve *)
+  end.
+
+Ltac split_ih IH v d' Hd :=
+  let V := fresh "V" in destruct IH as [V Hd]; destruct v as [v d']; simpl in V, Hd; subst v.
+
+Lemma bop_correct : forall o (a b : tree RD),
+  adm (TBin o a b) (gam s0) ->
+  result_ok a (eval RD (gam s0) sd lg a) -> result_ok b (eval RD (gam s0) sd lg b) ->
+  result_ok (TBin o a b) (eval RD (gam s0) sd lg (TBin o a b)).
+Proof.
+  intros o a b Hadm IHa IHb. simpl eval.
+  pose proof (novars_not_atom (gam s0) sd lg b) as Hnv.
+  destruct (eval RD (gam s0) sd lg a) as [ca | da | ], (eval RD (gam s0) sd lg b) as [cb | db | ];
+    simpl apply_bop; try exact I; simpl in IHa, IHb.
+  - (* number op number *)
+    intros rho. simpl. rewrite IHa, IHb. destruct o; reflexivity.
+  - (* number op Atom: reflected operators *)
+    split_ih IHb db db' Hb.
+    destruct o; simpl in Hadm; unfold atom_bop_ca.
+    + apply (derives_ext (fun u => ca + den b (gam u))); [ intros; simpl; now rewrite IHa | ].
+      apply (radd_rule (fun u => den b (gam u)) s0 db' ca Hb).
+    + apply (derives_ext (fun u => ca - den b (gam u))); [ intros; simpl; now rewrite IHa | ].
+      apply (rsub_rule (fun u => den b (gam u)) s0 db' ca Hb).
+    + apply (derives_ext (fun u => ca * den b (gam u))); [ intros; simpl; now rewrite IHa | ].
+      apply (rmul_rule (fun u => den b (gam u)) s0 db' ca Hb).
+    + apply (derives_ext (fun u => ca / den b (gam u))); [ intros; simpl; now rewrite IHa | ].
+      apply (rtruediv_rule (fun u => den b (gam u)) s0 db' ca Hb). tauto.
+    + (* number ** Atom: class Atom has no __rpow__, Python raises TypeError *)
+      change has_rpow with false. exact I.
+  - (* Atom op number *)
+    split_ih IHa da da' Ha.
+    destruct o; simpl in Hadm; unfold atom_bop_ac.
+    + apply (derives_ext (fun u => den a (gam u) + cb)); [ intros; simpl; now rewrite IHb | ].
+      apply (add_ac_rule (fun u => den a (gam u)) s0 da' cb Ha).
+    + apply (derives_ext (fun u => den a (gam u) - cb)); [ intros; simpl; now rewrite IHb | ].
+      apply (sub_ac_rule (fun u => den a (gam u)) s0 da' cb Ha).
+    + apply (derives_ext (fun u => den a (gam u) * cb)); [ intros; simpl; now rewrite IHb | ].
+      apply (mul_ac_rule (fun u => den a (gam u)) s0 da' cb Ha).
+    + apply (derives_ext (fun u => den a (gam u) / cb)); [ intros; simpl; now rewrite IHb | ].
+      apply (truediv_ac_rule (fun u => den a (gam u)) s0 da' cb Ha).
+    + apply (derives_ext (fun u => rpow (den a (gam u)) cb)); [ intros; simpl; now rewrite IHb | ].
+      destruct Hadm as (_ & _ & [Hpos | (Hnz & _ & n & Hn)]).
+      * apply (pow_ac_rule_pos (fun u => den a (gam u)) s0 da' cb Ha Hpos).
+      * rewrite IHb in Hn. subst cb.
+        apply (pow_ac_rule_int (fun u => den a (gam u)) s0 da' n Ha Hnz).
+  - (* Atom op Atom *)
+    split_ih IHa da da' Ha. split_ih IHb db db' Hb.
+    destruct o; simpl in Hadm; unfold atom_bop_aa.
+    + apply (add_aa_rule (fun u => den a (gam u)) (fun u => den b (gam u)) s0 da' db' Ha Hb).
+    + apply (sub_aa_rule (fun u => den a (gam u)) (fun u => den b (gam u)) s0 da' db' Ha Hb).
+    + apply (mul_aa_rule (fun u => den a (gam u)) (fun u => den b (gam u)) s0 da' db' Ha Hb).
+    + apply (truediv_aa_rule (fun u => den a (gam u)) (fun u => den b (gam u)) s0 da' db' Ha Hb). tauto.
+    + destruct Hadm as (_ & _ & [Hpos | (_ & Hn & _)]).
+      * apply (pow_aa_rule (fun u => den a (gam u)) (fun u => den b (gam u)) s0 da' db' Ha Hb Hpos).
+      * exfalso. exact (Hnv Hn).
+Qed.
+
+Lemma fn_correct : forall f (a : tree RD),
+  adm (TFun f a) (gam s0) ->
+  result_ok a (eval RD (gam s0) sd lg a) ->
+  result_ok (TFun f a) (eval RD (gam s0) sd lg (TFun f a)).
+Proof.
+  intros f a Hadm IHa. simpl eval.
+  destruct (eval RD (gam s0) sd lg a) as [ca | da | ]; simpl apply_fn; try exact I; simpl in IHa.
+  - intros rho. simpl. rewrite IHa. destruct f; reflexivity.
+  - split_ih IHa da da' Ha.
+    destruct (is_method (fn_name f)); [ | exact I ].
+    destruct f; simpl in Hadm; try exact I.
+    + apply (log_rule (fun u => den a (gam u)) s0 da' Ha). tauto.
+    + apply (exp_rule (fun u => den a (gam u)) s0 da' Ha).
+    + apply (sqrt_rule (fun u => den a (gam u)) s0 da' Ha). tauto.
+    + apply (logistic_rule (fun u => den a (gam u)) s0 da' Ha).
+Qed.
+
+Lemma fn2_correct : forall f (a b : tree RD),
+  adm (TFun2 f a b) (gam s0) ->
+  result_ok a (eval RD (gam s0) sd lg a) -> result_ok b (eval RD (gam s0) sd lg b) ->
+  result_ok (TFun2 f a b) (eval RD (gam s0) sd lg (TFun2 f a b)).
+Proof.
+  intros f a b Hadm IHa IHb. simpl eval. simpl in Hadm. destruct Hadm as (_ & _ & Hne).
+  destruct (eval RD (gam s0) sd lg a) as [ca | da | ], (eval RD (gam s0) sd lg b) as [cb | db | ];
+    simpl apply_fn2; try exact I; simpl in IHa, IHb.
+  - intros rho. simpl. rewrite IHa, IHb. destruct f; reflexivity.
+  - split_ih IHa da da' Ha.
+    destruct (is_method (fn2_name f)) eqn:E; [ | exact I ].
+    rewrite IHb in Hne.
+    destruct f; unfold atom_fn2_ac.
+    + apply (derives_ext (fun u => Rmax (den a (gam u)) cb)); [ intros; simpl; now rewrite IHb | ].
+      apply (maximum_ac_rule (fun u => den a (gam u)) s0 da' cb Ha Hne).
+    + destruct minimum_rule_or_unreachable as [Hun | [_ Hac]];
+        [ unfold minimum_is_method in Hun; congruence | ].
+      apply (derives_ext (fun u => Rmin (den a (gam u)) cb)); [ intros; simpl; now rewrite IHb | ].
+      apply (Hac (fun u => den a (gam u)) s0 da' cb Ha Hne).
+  - split_ih IHa da da' Ha. split_ih IHb db db' Hb.
+    destruct (is_method (fn2_name f)) eqn:E; [ | exact I ].
+    destruct f; unfold atom_fn2_aa.
+    + apply (maximum_aa_rule (fun u => den a (gam u)) (fun u => den b (gam u)) s0 da' db' Ha Hb Hne).
+    + destruct minimum_rule_or_unreachable as [Hun | [Haa _]];
+        [ unfold minimum_is_method in Hun; congruence | ].
+      apply (Haa (fun u => den a (gam u)) (fun u => den b (gam u)) s0 da' db' Ha Hb Hne).
+Qed.
+
+Lemma fn2d_correct : forall f (a : tree RD),
+  adm (TFun2d f a) (gam s0) ->
+  result_ok a (eval RD (gam s0) sd lg a) ->
+  result_ok (TFun2d f a) (eval RD (gam s0) sd lg (TFun2d f a)).
+Proof.
+  intros f a Hadm IHa. simpl eval. simpl in Hadm. destruct Hadm as (_ & Hne).
+  destruct (eval RD (gam s0) sd lg a) as [ca | da | ]; simpl apply_fn2d; try exact I; simpl in IHa.
+  split_ih IHa da da' Ha.
+  destruct (is_method (fn2_name f)) eqn:E; [ | exact I ].
+  destruct f; unfold atom_fn2_ac.
+  - apply (maximum_ac_rule (fun u => den a (gam u)) s0 da' _ Ha Hne).
+  - destruct minimum_rule_or_unreachable as [Hun | [_ Hac]];
+      [ unfold minimum_is_method in Hun; congruence | ].
+    apply (Hac (fun u => den a (gam u)) s0 da' _ Ha Hne).
+Qed.
+
+Lemma adm_sub : forall o (a b : tree RD) rho, adm (TBin o a b) rho -> adm a rho /\ adm b rho.
+Proof. intros o a b rho H. destruct o; simpl in H; tauto. Qed.
+Lemma adm_fn_sub : forall f (a : tree RD) rho, adm (TFun f a) rho -> adm a rho.
+Proof. intros f a rho H. destruct f; simpl in H; tauto. Qed.
+
+(* MAIN: for every expression tree, every differentiable curve of evaluation points through an
+   admissible point and every seed assignment that is the derivative of the curve (through Atom.diff),
+   the evaluator returns the value of the residual and its derivative along the curve - or rejects. *)
+Theorem eval_correct : forall t : tree RD,
+  (forall v, In v (vars RD t) -> leaf_ok v) ->
+  adm t (gam s0) ->
+  result_ok t (eval RD (gam s0) sd lg t).
+Proof.
+  induction t as [c | q s | a IHa | a IHa | o a IHa b IHb | f a IHa | f a IHa b IHb | f a IHa];
+    intros Hl Hadm.
+  - simpl. intros rho. reflexivity.
+  - simpl. split; [ reflexivity | ]. simpl. apply (Hl (q, s)). simpl. auto.
+  - simpl in *. specialize (IHa Hl Hadm).
+    destruct (eval RD (gam s0) sd lg a) as [ca | da | ]; simpl in *; auto.
+  - simpl in *. specialize (IHa Hl Hadm).
+    destruct (eval RD (gam s0) sd lg a) as [ca | da | ]; simpl in *; auto.
+    + intros rho. now rewrite IHa.
+    + destruct IHa as [V D]. destruct da as [v d']. simpl in V, D. subst v.
+      apply (neg_rule (fun u => den a (gam u)) s0 d' D).
+  - destruct (adm_sub _ _ _ _ Hadm) as [A1 A2].
+    apply bop_correct; [ assumption | apply IHa | apply IHb ]; try assumption;
+      intros v Hv; apply Hl; simpl; rewrite in_app_iff; auto.
+  - apply fn_correct; [ assumption | apply IHa; [ exact Hl | exact (adm_fn_sub _ _ _ Hadm) ] ].
+  - simpl in Hadm. destruct Hadm as (A1 & A2 & Hne).
+    apply fn2_correct; [ simpl; tauto | apply IHa | apply IHb ]; try assumption;
+      intros v Hv; apply Hl; simpl; rewrite in_app_iff; auto.
+  - simpl in Hadm. destruct Hadm as (A1 & Hne).
+    apply fn2d_correct; [ simpl; tauto | apply IHa; assumption ].
+Qed.
+
+End EvalCorrect.
